@@ -29,6 +29,9 @@ type KACase struct {
 	// WebSocket connection must then outlive the HTTP keep-alive time the engine armed at accept),
 	// "double" = twice the engine's
 	WSKA string `json:"ws_keepalive,omitempty"`
+	// HandlerMs: the HTTP handler / WebSocket message callback takes this long; the keep-alive time counts
+	// from the end of the exchange (the response, the handled message), not from the arrival of the request
+	HandlerMs int `json:"handler_ms,omitempty"`
 }
 
 func runKA(c KACase) vlib.Result {
@@ -43,7 +46,8 @@ func runKA(c KACase) vlib.Result {
 		conf.EPOLLONESHOT = 0x40000000
 	}
 	mux := http.NewServeMux()
-	mux.HandleFunc("/", func(w http.ResponseWriter, r *http.Request) { _, _ = w.Write([]byte("ok")) })
+	hd := time.Duration(c.HandlerMs) * time.Millisecond
+	mux.HandleFunc("/", func(w http.ResponseWriter, r *http.Request) { time.Sleep(hd); _, _ = w.Write([]byte("ok")) })
 	u := websocket.NewUpgrader()
 	u.KeepaliveTime = ka
 	httpKA := ka
@@ -60,7 +64,10 @@ func runKA(c KACase) vlib.Result {
 	if c.WSKA != "" && c.Kind == "ws" {
 		res.Classes = append(res.Classes, "ws-keepalive="+c.WSKA)
 	}
-	u.OnMessage(func(c *websocket.Conn, mt websocket.MessageType, data []byte) { _ = c.WriteMessage(mt, data) })
+	u.OnMessage(func(c *websocket.Conn, mt websocket.MessageType, data []byte) {
+		time.Sleep(hd)
+		_ = c.WriteMessage(mt, data)
+	})
 	mux.HandleFunc("/ws", func(w http.ResponseWriter, r *http.Request) {
 		_, _ = u.Upgrade(w, r, nil)
 	})
@@ -99,7 +106,7 @@ func runKA(c KACase) vlib.Result {
 			}
 			for gi, gap := range gaps {
 				time.Sleep(time.Duration(gap) * time.Millisecond)
-				if !noKA && time.Since(lastAnswered) > ka-15*time.Millisecond {
+				if !noKA && time.Since(lastAnswered) > ka-15*time.Millisecond-hd {
 					// too late to count as a renewal (scheduling delay): stop exchanging, just observe the close
 					break
 				}
@@ -171,8 +178,13 @@ func runKA(c KACase) vlib.Result {
 				errs[ci] = fmt.Errorf("connection %d: unexpected data while idle", ci)
 				return
 			}
-			if closedAt.Before(lastSent.Add(ka)) {
-				errs[ci] = fmt.Errorf("connection %d: closed %v after the last exchange began, EARLIER than the keep-alive time %v", ci, closedAt.Sub(lastSent), ka)
+			// the deadline was armed when the last exchange ended, i.e. not before its handler had run
+			armedNotBefore := lastSent
+			if nts[ci] && !(c.Kind == "ws" && c.WSPing) {
+				armedNotBefore = lastSent.Add(hd)
+			}
+			if closedAt.Before(armedNotBefore.Add(ka)) {
+				errs[ci] = fmt.Errorf("connection %d: closed %v after the last exchange began (its handler took %v), EARLIER than the keep-alive time %v after the end of that exchange", ci, closedAt.Sub(lastSent), hd, ka)
 				return
 			}
 			if closedAt.After(lastAnswered.Add(ka + tol)) {
@@ -199,6 +211,10 @@ func genKA(t *rapid.T) KACase {
 	c.IOMod = rapid.SampledFrom([]int{nbhttp.IOModNonBlocking, nbhttp.IOModNonBlocking, nbhttp.IOModBlocking}).Draw(t, "iomod")
 	c.KAMs = rapid.SampledFrom([]int{100, 150, 200, 300}).Draw(t, "ka")
 	c.WSPing = rapid.Bool().Draw(t, "wsping")
+	c.HandlerMs = rapid.SampledFrom([]int{0, 0, 40, 90}).Draw(t, "handlerms")
+	if c.KAMs < c.HandlerMs+60 {
+		c.HandlerMs = 0
+	}
 	if c.Kind == "ws" {
 		c.WSKA = rapid.SampledFrom([]string{"", "none", "double"}).Draw(t, "wska")
 	}
@@ -208,7 +224,10 @@ func genKA(t *rapid.T) KACase {
 		k := rapid.IntRange(0, 5).Draw(t, "nexchanges")
 		for j := 0; j < k; j++ {
 			// renewals well inside the keep-alive time (at most KA-40 ms)
-			gaps = append(gaps, rapid.IntRange(0, c.KAMs-40).Draw(t, "gap"))
+			// ... and early enough for the handler to finish before the pending deadline: what happens to a
+			// connection whose handler outlives the deadline armed by the previous exchange is not part of the
+			// statement (the library closes it in the middle of the handler; recorded in DESIGN.md, not asserted)
+			gaps = append(gaps, rapid.IntRange(0, c.KAMs-40-c.HandlerMs).Draw(t, "gap"))
 		}
 		c.Conns = append(c.Conns, gaps)
 	}
